@@ -17,7 +17,7 @@ def gen(c, binary):
 
 def run(c):
     c.rule = ("one case = one argument tuple (start, end, step, now, real *time.Location out of 11 incl. DST, 30/45-minute and "
-              "midnight-switching zones, week start 0-6 through the real calcUTCOffset or an arbitrary utc offset, width, mode, extend, "
+              "midnight-switching zones; times from 1932 to 2033 incl. a regime around and before 1970-01-01 where t+utcOffset is negative; week start 0-6 through the real calcUTCOffset or an arbitrary utc offset, width, mode, extend, "
               "0-3 metrics with resolution and offset) drawn from range shapes (recent, on/around every LOD switch, long, grid "
               "aligned, around the 7680 point limit, future, inside one bucket, degenerate), plus mathDiv/roundTime/calcUTCOffset "
               "probes; monthly queries carry time shifts N*31d (as the API computes them) and GetLODs is called for every shift, LOD.IndexOf is "
@@ -71,7 +71,7 @@ META = {
              "re-aligned), holds exactly the level's Len grid points and LOD.IndexOf is defined for each of them (lods_shifted_on_grid; the "
              "un-realigned variant start := Time[0]-offset is refuted by a decide witness); point "
              "queries use exactly one level and return an aligned [from, to) with from < to inside the request (covering it with extend); mathDiv is floor "
-             "division; roundTime is the aligned floor; calcUTCOffset aligns 7d steps to the configured week start. The model is tied "
+             "division (not T-division); roundTime is the aligned floor for every t : Int, negative included (roundTime_floor; the truncating variant t-(t+off)%step is refuted by a decide witness); calcUTCOffset aligns 7d steps to the configured week start. The model is tied "
              "to the code by running each generated tuple through the real functions and the compiled model and diffing the full "
              "result (levels, indices, first/last point, checksum of all points, ranges)."),
     "note": ("Explicit exclusion (hypothesis hm, with decide witnesses): monthly step combined with a non-zero metric time offset - "
